@@ -19,6 +19,25 @@ FAMILIES = {
 }
 LVL = ["none", "medium", "strict", ""]
 LVM = ["none", "medium", ""]
+ORD = list(displib.ORDERS)          # validate_order as written: absent, "false", "true"
+RELS = ["older", "equal", "newer", "older"]
+
+
+def with_followups(rng, lines, nchains):
+    """after some lines that must be accepted (whole-second timestamp) a short chain of points with the very same key
+    and an older / equal / newer timestamp than an earlier point of the chain; what the order check has to say about
+    them is decided by the register of DispatchTrace.tla"""
+    bases = [i for i, l in enumerate(lines) if l["allowed"] == [True] and l["line"]["nf"] == 3 and l["line"]["ts"] == "int"]
+    chosen = set(rng.sample(bases, min(nchains, len(bases))))
+    out = []
+    for i, l in enumerate(lines):
+        out.append(l)
+        if i in chosen:
+            b = len(out) - 1
+            for k in range(rng.randint(2, 4)):
+                out.append(dict(nm="k", line=dict(l["line"], val="int", ts="int"), allowed=[True],
+                                rel=RELS[rng.randrange(len(RELS))], ref=rng.randint(b, b + k)))
+    return out
 
 
 def eff(s):
@@ -33,17 +52,18 @@ def run(ctx):
     #    Table.tla's Dispatch loop, checked against the declarative statement
     lines = displib.gen_lines(ctx, ctx.pick(2, 3))
     skip_mc = os.environ.get("VERIF_DEV_SKIP_MC") == "1"      # development aid for trying code mutants out quickly
-    displib.mc_grid(ctx, [] if skip_mc else [consts(names=2, black=1, rw=1, agg=1, routes=1, dests=1, kinds={"capture", "all"})] if q else
-                    [consts(names=2, black=1, rw=0, agg=1, routes=2, dests=1, kinds={"capture", "all"})], workers=ctx.pick(4, 6))
+    displib.mc_grid(ctx, [] if skip_mc else [consts(names=2, black=1, rw=1, agg=1, routes=1, dests=1, kinds={"capture", "all"}, orders=ORD)] if q else
+                    [consts(names=2, black=1, rw=0, agg=1, routes=2, dests=1, kinds={"capture", "all"}, orders=ORD)], workers=ctx.pick(4, 6))
     if not skip_mc:
-        displib.mc_nonvacuity(ctx, ["no_return_invalid", "invalid_not_counted"])
+        displib.mc_nonvacuity(ctx, ["no_return_invalid", "invalid_not_counted", "invalid_counted_as_ooo", "ooo_counted_invalid",
+                                    "order_check_when_off", "no_return_ooo", "order_before_validate"])
 
-    # 2. cases: line classes x level pairs as written in the configuration text x small table shapes
+    # 2. cases: line classes x (level pair, validate_order) as written in the configuration text x small table shapes
     fams = sorted(FAMILIES)
     cases = []
-    per = ctx.pick(240, None)
-    reps = ctx.pick(1, 3)
-    for ci, (lvl, lvm) in enumerate([(a, b) for a in LVL for b in LVM]):
+    per = ctx.pick(160, None)
+    reps = 1
+    for ci, (lvl, lvm, od) in enumerate([(a, b, c) for a in LVL for b in LVM for c in ORD]):
         if per:
             # always some classes whose verdict depends on this very level pair, the rest sampled
             dep = [l for l in lines if l["v"][eff(lvl)][eff(lvm)] != l["v"]["none"]["none"]
@@ -57,10 +77,12 @@ def run(ctx):
         for i, l in enumerate(pickd):
             buckets[use[i % len(use)]].append(l)
         for f in use:
-            cases.append(dict(id=len(cases), names=K, t=FAMILIES[f], fam=f, lvl=lvl, lvm=lvm,
-                              lines=[dict(nm="k", line=l["line"], allowed=l["v"][eff(lvl)][eff(lvm)]) for l in buckets[f]]))
+            ls = [dict(nm="k", line=l["line"], allowed=l["v"][eff(lvl)][eff(lvm)]) for l in buckets[f]]
+            cases.append(dict(id=len(cases), names=K, t=FAMILIES[f], fam=f, lvl=lvl, lvm=lvm, ord=od,
+                              lines=with_followups(rng, ls, ctx.pick(3, 12))))
     nl = sum(len(c["lines"]) for c in cases)
-    ctx.log("cases: %d tables (12 level pairs as written x table shapes), %d lines from %d classes" % (len(cases), nl, len(lines)))
+    ctx.log("cases: %d tables (12 level pairs x 3 validate_order settings as written x table shapes), %d lines from %d classes" % (
+        len(cases), nl, len(lines)))
 
     # 3. the real table, created through the configuration path
     events, crashed = displib.run_driver(ctx, cases, "c02", timeout=ctx.pick(900, 3000))
@@ -77,20 +99,42 @@ def run(ctx):
         ln = case["lines"][ev["li"]]
         o = ev["o"]
         moved = bool(o["black"] or o["unroutable"] or o["agg"] or any(any(v) for v in o["rt"]))
-        forwarded = moved and o["invalid"] == 0
+        rej = o["invalid"] + o["ooo"]
+        forwarded = moved and rej == 0
         k = ln["line"]["key"]
         cls = "nf=%d key=%s%s;%s val=%s ts=%s" % (ln["line"]["nf"], "." if k["lead"] else "", ".".join(k["nodes"]), k["app"],
                                                 ln["line"]["val"], ln["line"]["ts"])
-        lv = "legacy=%s m20=%s" % (case["lvl"] or "(default)", case["lvm"] or "(default)")
+        lv = "legacy=%s m20=%s validate_order=%s" % (case["lvl"] or "(default)", case["lvm"] or "(default)", case["ord"] or "(absent)")
+        if ln.get("rel"):
+            cls += " [same key as line %d, %s timestamp]" % (ln["ref"], ln["rel"])
         if o["in"] != 1:
             sig = "c02 inbound-counter"
             what = "the inbound counter moved by %d for one line (%s, %s)" % (o["in"], cls, lv)
-        elif not moved and o["invalid"] == 0:
+        elif not moved and rej == 0:
             sig = "c02 line-vanished table=%s" % case["fam"]
             what = "a line (%s, %s) was neither forwarded nor counted invalid: %s" % (cls, lv, json.dumps(o))
-        elif moved and o["invalid"] != 0:
+        elif moved and rej != 0:
             sig = "c02 rejected-line-accounting table=%s" % case["fam"]
-            what = "a line counted invalid (%s, %s) also moved other counters/hand-overs %s" % (cls, lv, json.dumps(o))
+            what = "a line counted invalid/out-of-order (%s, %s) also moved other counters/hand-overs %s" % (cls, lv, json.dumps(o))
+        elif o["ooo"] != 0 and o["invalid"] != 0:
+            sig = "c02 rejected-line-counted-twice"
+            what = "a rejected line (%s, %s) moved both the invalid and the out_of_order counter: %s" % (cls, lv, json.dumps(o))
+        elif o["ooo"] != 0 and ln["allowed"] == [False]:
+            sig = "c02 invalid-line-counted-out-of-order validate_order=%s" % (case["ord"] or "absent")
+            what = ("a line that fails validation (%s, %s) moved the out_of_order counter by %d and the invalid counter by %d: "
+                    "every rejected line increments the invalid counter exactly once" % (cls, lv, o["ooo"], o["invalid"]))
+        elif o["ooo"] != 0 and case["ord"] != "true":
+            sig = "c02 order-check-while-disabled validate_order=%s" % (case["ord"] or "absent")
+            what = "a line (%s, %s) was rejected as out-of-order although order validation is not enabled" % (cls, lv)
+        elif o["ooo"] != 0 and not ln.get("rel"):
+            sig = "c02 order-check-rejected-fresh-name"
+            what = "a valid point (%s, %s) with a positive timestamp and a name never seen before was rejected as out-of-order" % (cls, lv)
+        elif case["ord"] == "true" and ln.get("rel") and True in ln["allowed"] and (forwarded or o["ooo"] != 0):
+            sig = "c02 repeated-name-point-handling rel=%s %s" % (ln["rel"], "forwarded" if forwarded else "rejected")
+            what = ("a valid point (%s, %s, timestamp %s) was not handled as the order register of the specification demands (not newer "
+                    "than what was accepted for its name: counted out_of_order once, reported as bad metric under its name with its "
+                    "text, forwarded nowhere, not counted invalid; newer: forwarded): %s bad=%s" % (
+                        cls, lv, ev["tsn"], json.dumps(o), ev["bad"]))
         elif forwarded not in ln["allowed"]:
             sig = "c02 %s %s %s" % ("forwarded-invalid" if forwarded else "rejected-valid", lv, cls)
             what = "line class %s at %s was %s; allowed verdicts %s" % (cls, lv, "forwarded" if forwarded else "rejected", ln["allowed"])
@@ -104,13 +148,14 @@ def run(ctx):
             sig = "c02 bad-metrics-record %s" % ("nf3" if ln["line"]["nf"] == 3 else "unparsable")
             what = "rejected line (%s, %s): bad-metrics records %s do not show it under its name with its text and a true reason" % (
                 cls, lv, json.dumps(ev["bad"]))
-        ctx.violation(sig, what, dict(table=case["t"], config_levels=[case["lvl"], case["lvm"]], line=ln, observed=ev))
+        ctx.violation(sig, what, dict(table=case["t"], config_levels=[case["lvl"], case["lvm"]], validate_order=case["ord"], line=ln, observed=ev))
 
     nacc, nrej = displib.validate(ctx, events, "c02", on_reject)
     if not ctx.violations:
         displib.selftest_binding(ctx, events, "c02")
 
     nd, rejected, forwarded = 0, 0, 0
+    ooo_points, repeats_fwd, inv_by_ord = 0, 0, {x: 0 for x in ORD}
     distinct = set()
     for e in events:
         if e["ev"] != "d":
@@ -118,6 +163,12 @@ def run(ctx):
         nd += 1
         case = byid[e["id"]]
         ln = case["lines"][e["li"]]
+        if e["o"]["ooo"] == 1 and e["o"]["invalid"] == 0:
+            ooo_points += 1
+        elif ln.get("rel") and e["o"]["invalid"] == 0:
+            repeats_fwd += 1
+        if e["o"]["invalid"] == 1 and e["o"]["ooo"] == 0:
+            inv_by_ord[case["ord"]] += 1
         if ln["allowed"] == [False]:
             rejected += 1
         elif ln["allowed"] == [True]:
@@ -126,6 +177,9 @@ def run(ctx):
             distinct.add((json.dumps(ln["line"], sort_keys=True), eff(case["lvl"]), eff(case["lvm"])))
     if not crashed and not ctx.violations and (rejected == 0 or forwarded == 0):
         raise Machinery("vacuous coverage: %d must-reject / %d must-forward lines" % (rejected, forwarded))
+    if not crashed and not ctx.violations and (ooo_points == 0 or repeats_fwd == 0 or min(inv_by_ord.values()) == 0):
+        raise Machinery("vacuous coverage of the order setting: %d out-of-order points, %d repeated names forwarded, invalid lines per "
+                        "validate_order setting %s" % (ooo_points, repeats_fwd, inv_by_ord))
     cov = ctx.cov
     cov["evaluations"] = nd
     cov["dispatches_accepted_by_tlc"] = nacc
@@ -133,10 +187,16 @@ def run(ctx):
     cov["line_classes"] = len(lines)
     cov["lines_that_must_be_rejected"] = rejected
     cov["lines_that_must_be_forwarded"] = forwarded
+    cov["out_of_order_points_accepted_by_tlc"] = ooo_points
+    cov["repeated_name_points_not_rejected"] = repeats_fwd
+    cov["invalid_counted_lines_by_validate_order_as_written"] = {k or "(absent)": v for k, v in inv_by_ord.items()}
     cov["rule"] = ("line classes = TLC enumeration (ValidateGen) of keys [leading dot, <= %d nodes of 10 kinds, 13 tag-appendix kinds] x "
                    "value/timestamp classes x field counts 0..5, each with the verdict set of Validate.tla per level pair; every class "
                    "concretised to bytes by construction (seeded) and dispatched into a real table created from a configuration text "
-                   "with validation_level_legacy in {none, medium, strict, absent} x validation_level_m20 in {none, medium, absent}, "
+                   "with validation_level_legacy in {none, medium, strict, absent} x validation_level_m20 in {none, medium, absent} x "
+                   "validate_order in {absent, false, true}; every generated key is unique in the process, and some accepted lines are "
+                   "followed by points with the very same key and an older/equal/newer timestamp (fate decided by the max-register of "
+                   "DispatchTrace.tla: out-of-order only when validate_order = true); "
                    "over table shapes {aggregation+route, blacklist-all, no route, drop-raw, real routes, rejecting route}; distinct "
                    "non-trivial = distinct (line class, effective level pair) whose verdict set is not {accept}" % ctx.pick(2, 3))
     for c in cases:
@@ -150,6 +210,9 @@ def run(ctx):
                         "float timestamps) both verdicts are allowed",
                         "values/timestamps that Go's ParseFloat accepts beyond decimal int/float notation (inf, nan, hex floats) are not generated",
                         "bad-metrics records are added asynchronously: the driver polls Bad().Get for up to 10 s per rejected line",
-                        "order validation off (C19); pickle/UDP/AMQP inputs and their own invalid counting are C12-C14"]
+                        "order validation is a configuration dimension of the gate (sequential use of the register only; its "
+                        "atomicity under concurrent connections is C19); generated timestamps are positive whole or fractional seconds "
+                        "below 2^31",
+                        "pickle/UDP/AMQP inputs and their own invalid counting are C12-C14"]
     cov["trusted_base"] = ["TLC", "harness/disp driver (builds bytes from the abstract class, records only)",
                            "byte templates of node/appendix/number classes in the driver"]
